@@ -68,7 +68,7 @@ func (s *Scanner) readNextRune() {
 	if s.isDone() {
 		s.nextRune = -1
 		s.nextRuneSize = 0
-	} else if r, size := utf8.DecodeRune(s.src[s.offset:]); r == utf8.RuneError && size != 0 {
+	} else if r, size := utf8.DecodeRune(s.src[s.offset:]); r == utf8.RuneError && size == 1 {
 		s.nextRune = r
 		s.nextRuneSize = 1
 	} else {
